@@ -111,6 +111,7 @@ func concExec(seed uint64, p *prog.Program, finalReopen bool, backup bool) (*run
 	}
 	res.Yields, res.Switches = c.W.Stats.Yields, c.W.Stats.Switches
 	res.Schedules = schedHash(c.Sched.Trace)
+	res.Trace = c.Sched.Trace
 	if c.Sched.Capped {
 		res.Inconcl++
 		return c, res
